@@ -1159,6 +1159,9 @@ func (i *interpreter) stringsByteReplacerReplace() *ssa.Function {
 }
 
 func init() {
+	// strings are immutable values in the engine: cloning is the identity (the real body uses unsafe.String)
+	register("internal/stringslite.Clone", func(fr *frame, a []value) value { return a[0] })
+	register("strings.Clone", func(fr *frame, a []value) value { return a[0] })
 	// maps.clone is linknamed to the runtime: copy the engine map
 	register("maps.clone", func(fr *frame, a []value) value {
 		iv, ok := a[0].(iface)
